@@ -500,7 +500,12 @@ def main(pid, argv=None):
                         bad = f"encoding raised a foreign exception ({impl[2] if len(impl) > 2 else 'hang'})"
                 elif impl[0] == 0 and pid in ("C01", "C04", "C03"):
                     pdu = bytes(impl[1])
-                    if not impl[2] and isinstance(e["value"], dict):
+                    short = [p for p in c.params if p["kind"]["k"] == "matchreq" and e["req"] is not None and
+                             len(e["req"]) < p["kind"]["rqpos"] + p["kind"]["len"]]
+                    if short and pid == "C04":
+                        bad = (f"a PDU ({pdu.hex()}) was produced although the triggering request {bytes(e['req']).hex()!r} "
+                               f"does not contain the bytes which {short[0]['name']} mirrors")
+                    if bad is None and not impl[2] and isinstance(e["value"], dict):
                         dec = cc.impl_decode(c.obj, pdu)
                         exempt = roundtrip_exempt(c.params, e["value"])
                         ck.hist("roundtrip", "exempt:" + exempt if exempt else "checked")
